@@ -865,6 +865,17 @@ dead_run(Params *p)
 				    ci, used, kind, id);
 			if (!correct)
 				VIOL("reply_without_reply", "ctx%d received a reply although none was sent to its request", ci);
+			if (W(0, 2) == 0) {
+				// the exchange is complete; losing the connection afterwards does not make
+				// a receive without a request anything but out-of-order use
+				nng_pipe pp;
+				memset(&pp, 0, sizeof(pp));
+				pp.id = pipe;
+				(void) nng_pipe_close(pp);
+				sim_quiesce(5000000);
+				expect_estate(ci, "a completed exchange whose connection was lost afterwards");
+				sim_probe("c04_dead_loss_after_exchange");
+			}
 		} else if (correct && w.send_failed == 0) {
 			VIOL("reply_not_delivered", "ctx%d: the correct reply was sent but receive returned %d", ci, r.result);
 		}
